@@ -247,16 +247,17 @@ def check_case(case, rec):
         o = RmsWavefrontErrorVsField(lens, num_fields=nf, wavelengths=[wl], num_rays=nr, distribution='hexapolar')
         got = np.asarray(o._wavefront_error, float)
         d = make_dist('hexapolar', nr, 0)
-        want = []
+        want, peaks = [], []
         for h in np.linspace(0, 1, nf):
             ora, _, _ = oracle_W(spec, lens2, float(h), wl, d.x, d.y, n_prev, n_obj)
             want.append([float(np.sqrt(np.mean(W ** 2))) for (W, _, _, _, _) in ora.values()])
-        want = np.array(want)     # (nf, 2 roots)
+            peaks.append(max(float(np.max(np.abs(W))) if np.isfinite(W).all() else float('nan') for (W, _, _, _, _) in ora.values()))
+        want, peaks = np.array(want), np.array(peaks)     # (nf, 2 roots), (nf,)
         if not np.all(np.isfinite(want)):
             rec.cls('pupil-has-lost-rays-rms-skipped')
             return
         g = got.reshape(nf, -1)[:, 0]
-        sane = np.max(want, axis=1) < 1000      # grossly aberrated field points mix sphere roots per ray (see above)
+        sane = peaks < 1000      # grossly aberrated field points (peak >= 1000 waves) mix sphere roots per ray: same rule as in compare()
         if not sane.all():
             rec.cls('grossly-aberrated-field-points-skipped')
         if not sane.any():
